@@ -1,8 +1,8 @@
 package oracle
 
 import (
-	"os"
 	"fmt"
+	"os"
 	"sort"
 	"strconv"
 	"strings"
@@ -43,29 +43,29 @@ type ExtCall struct {
 type ExtStub func(sh *Shell, argv []Str, stdin Str) (stdout Str, status gosym.Value)
 
 type Shell struct {
-	C       *gosym.Ctx
-	vars    map[string]Str
-	arrays  map[string]*shArray
-	locals  []map[string]*Str // dynamic scoping frames
-	pos     [][]Str
-	funcs   map[string]*Cmd
-	Out     []Str // stdout chunks
-	Err     []Str
-	Status  gosym.Value // last exit status: int64 or BV64 term
-	Files   map[string]Str
-	Hazards []Hazard
-	Ext     []ExtCall
-	Stub    ExtStub
-	cmdSubs int // number of command substitutions run so far (decides the status of a pure assignment)
-	Stdin   []Str // lines available to read
-	ctl     ctlKind
-	ctlN    int
-	depth   int
-	steps   int
-	inSub   int
+	C          *gosym.Ctx
+	vars       map[string]Str
+	arrays     map[string]*shArray
+	locals     []map[string]*Str // dynamic scoping frames
+	pos        [][]Str
+	funcs      map[string]*Cmd
+	Out        []Str // stdout chunks
+	Err        []Str
+	Status     gosym.Value // last exit status: int64 or BV64 term
+	Files      map[string]Str
+	Hazards    []Hazard
+	Ext        []ExtCall
+	Stub       ExtStub
+	cmdSubs    int   // number of command substitutions run so far (decides the status of a pure assignment)
+	Stdin      []Str // lines available to read
+	ctl        ctlKind
+	ctlN       int
+	depth      int
+	steps      int
+	inSub      int
 	ExitStatus gosym.Value
-	Exited  bool
-	Events  []string
+	Exited     bool
+	Events     []string
 }
 
 func NewShell(c *gosym.Ctx) *Shell {
